@@ -173,6 +173,7 @@ pub fn gen_entry(r: &mut Rng, tier: Tier, big_ok: &mut bool) -> EntryKind {
                 vertex,
                 index,
                 fill: r.next_u64(),
+                layout: if r.chance(1, 3) { 1 + r.below(4) as u8 } else { 0 },
             })
         }
     }
@@ -268,6 +269,7 @@ pub fn directed() -> Vec<Doc> {
                 vertex: [vec![b(16000, Mode::Miniz(6)), b(4000, Mode::Miniz(6))], vec![], vec![b(640, Mode::Fixed)]],
                 index: [vec![b(3000, Mode::Stored)], vec![b(12, Mode::Raw)], vec![]],
                 fill: 13,
+                layout: 4,
             }),
         },
         E2 { gap: 0, poison: true, kind: EntryKind::Standard { blocks: vec![b(500, Mode::Miniz(6)), b(100, Mode::Raw)], fill: 21 } },
